@@ -975,7 +975,11 @@ class ArgumentParser(ParserDeprecations, ActionsContainer, ArgumentLinking, argp
                     if isinstance(val, (Namespace, dict)) and "__path__" in val:
                         action = _find_action(self, key)
                         if isinstance(action, (ActionJsonSchema, ActionJsonnet, ActionTypeHint, _ActionConfigLoad)):
-                            val_path = Path(os.path.basename(val["__path__"].absolute), mode="fc")
+                            val_name = os.path.basename(val["__path__"].absolute)
+                            if any(os.path.basename(pending_path) == val_name for pending_path, _ in pending_writes):
+                                # loaded from files with the same name in different directories, all saved into one
+                                val_name = key.replace(".", "_") + "_" + val_name
+                            val_path = Path(val_name, mode="fc")
                             check_overwrite(val_path)
                             val_out = strip_meta(val)
                             if isinstance(val, Namespace):
